@@ -60,10 +60,10 @@ def scenarios(tier: str) -> List[Dict[str, Any]]:
                         continue
                     for mono in (True, False):
                         sc = {"seq": seq, "mods": [[slot, kind, mult]], "mono": mono,
-                              "ion": ALL_IONS[k % len(ALL_IONS)], "charge": charges[(k // 2) % len(charges)],
+                              "ion": ALL_IONS[(k // 2) % len(ALL_IONS)], "charge": charges[(k // 36) % len(charges)],
                               "isotope": (k // 3) % 4, "adducts": adducts[(k // 5) % len(adducts)],
                               "labels": labels[(k // 7) % len(labels)], "on_mods": bool((k // 11) % 2),
-                              "in_ann": bool((k // 13) % 2)}
+                              "in_ann": bool((k // 13) % 2)}   # (k // 2: both mass modes for every ion type; the other strides are pairwise co-prime)
                         out.append(sc)
                         k += 1
         # pairs of slots (kinds rotated) and everything at once
@@ -73,7 +73,7 @@ def scenarios(tier: str) -> List[Dict[str, Any]]:
                 for mono in (True, False):
                     sc = {"seq": seq, "mods": [[s1, kinds[(k + r) % len(kinds)], 1 + k % 3 if not s1.startswith("static") else 1],
                                                [s2, kinds[(k * 3 + r + 1) % len(kinds)], 1 + (k + 1) % 3 if not s2.startswith("static") else 1]],
-                          "mono": mono, "ion": ALL_IONS[k % len(ALL_IONS)], "charge": charges[(k // 2) % len(charges)],
+                          "mono": mono, "ion": ALL_IONS[(k // 2) % len(ALL_IONS)], "charge": charges[(k // 36) % len(charges)],
                           "isotope": (k // 3) % 4, "adducts": adducts[(k // 5) % len(adducts)],
                           "labels": labels[(k // 7) % len(labels)], "on_mods": bool((k // 11) % 2), "in_ann": bool((k // 13) % 2)}
                     out.append(sc)
